@@ -136,7 +136,12 @@ def check_case(ctx, cr, out_name, write_log, rng, tier, max_subsets):
         for n in sub:
             p = cr["dir"] / n
             # now and then the pre-existing file is empty (a placeholder left by a failed run)
-            content[n] = b"" if rng.random() < 0.15 else SENTINEL + n.encode()
+            r_ = rng.random()
+            content[n] = b"" if r_ < 0.15 else SENTINEL + n.encode()
+            if 0.15 <= r_ < 0.4 and ref_bytes.get(n):
+                # left there by an earlier, identical run: byte for byte what this run would write
+                content[n] = ref_bytes[n]
+                ctx.count("no-clobber:pre-existing-file-identical-to-new-output")
             if not content[n]:
                 ctx.count("no-clobber:empty-pre-existing-file")
             p.write_bytes(content[n])
@@ -423,6 +428,7 @@ def plan(tier, seed):
 def gates(c, tier):
     need = {
         "no-clobber-ok": 500,
+        "no-clobber:pre-existing-file-identical-to-new-output": 300,
         "clobber-ok": 60,
         "format:fa": 8,
         "format:agp": 8,
